@@ -333,6 +333,12 @@ func (q *seq) exec(op seqOp) {
 	// the call, under the conservation law at the grow hook
 	w.arm(allowed)
 	w.law = q.limit
+	if op.entry == "data" {
+		// the caller's own list: how many growth events the library needs to
+		// hold its elements (one per element, or one for all of them) is not
+		// part of the claim, only the slot count the call may leave (allowed)
+		w.law = -1
+	}
 	var err error
 	panicked, pv, where := harness.Safe(func() { err = op.run() })
 	w.law = -1
